@@ -26,6 +26,17 @@ def sources(mod):
     inj.append("func InitCfg(a l0.T) (cfg.Settings, error) {\n\tpanic(wire.Build(cfg.New, wire.Value(error(nil)), wire.Value(7)))\n}\n".replace(", wire.Value(error(nil)), wire.Value(7)", ""))
     files["app/wire.go"] = "\n".join(inj)
     files["app/doc.go"] = "package app\n"
+    # further injector files of the same package, each with declarations of its own that are copied to the output
+    for j, nm in enumerate(["auth", "billing", "cache", "db", "email", "queue"]):
+        files["app/wire_%s.go" % nm] = (
+            "//go:build wireinject\n// +build wireinject\n\npackage app\n\nimport (\n\t\"%s/l%d\"\n\t\"github.com/google/wire\"\n)\n\n"
+            "var %sSet = wire.NewSet(l%d.New)\n\nfunc %sHelper() int { return %d }\n\n"
+            "func Init%s() (l%d.T, error) {\n\tpanic(wire.Build(%sSet))\n}\n" % (mod, j, nm, j, nm, j, nm.title(), j, nm))
+    # two tiny packages for the header-file runs
+    for t in ("t1", "t2"):
+        files["%s/wire.go" % t] = ("//go:build wireinject\n// +build wireinject\n\npackage %s\n\nimport \"github.com/google/wire\"\n\n"
+                                   "func Init() string {\n\tpanic(wire.Build(wire.Value(\"%s\")))\n}\n" % (t, t))
+        files["%s/doc.go" % t] = "package %s\n" % t
     # a second package that imports cfg under a different name in its generated file (its own `cfg` identifier is taken)
     files["beta/wire.go"] = ("//go:build wireinject\n// +build wireinject\n\npackage beta\n\nimport (\n\tc \"%s/cfg\"\n\t\"%s/l1\"\n\t\"github.com/google/wire\"\n)\n\n"
                              "func InitS() (c.Settings, error) {\n\tpanic(wire.Build(c.New, l1.New, wrap))\n}\n" % (mod, mod))
@@ -93,6 +104,17 @@ def eng_determinism(pid, tier, wd, known, replay=None):
         gen(base, [mod + "/app", mod + "/beta"]); collect(base, "import-path")
         gen(base, ["."], cwd=os.path.join(base, "app")); collect(base, "cwd-app", ("app",))
         gen(base, ["../beta"], cwd=os.path.join(base, "app")); collect(base, "cwd-rel", ("beta",))
+        # a short header file, tiny packages: alone vs together
+        open(os.path.join(base, "hdr.txt"), "w").write("// Copyright header.\n\n")
+        hp = gen(base, ["-header_file", "hdr.txt", "./t1", "./t2"]); collect(base, "hdr-together", ("t1", "t2"))
+        if set(outs["hdr-together"]) != {"t1", "t2"}:
+            raise RuntimeError("header-file corpus does not generate: " + hp.stderr[-800:])
+        gen(base, ["-header_file", "hdr.txt", "./t1"]); collect(base, "hdr-alone-t1", ("t1",))
+        gen(base, ["-header_file", "hdr.txt", "./t2"]); collect(base, "hdr-alone-t2", ("t2",))
+        gen(base, ["-header_file", "hdr.txt", "./t2", "./t1"]); collect(base, "hdr-reversed", ("t1", "t2"))
+        gen(base, ["./..."]); collect(base, "dotdotdot-all", ("app", "beta", "t1", "t2"))
+        gen(base, ["./t1"]); collect(base, "plain-alone-t1", ("t1",))
+        gen(base, ["./t2"]); collect(base, "plain-alone-t2", ("t2",))
         # another checkout location
         module_at(other)
         gen(other, ["./app", "./beta"]); collect(other, "other-location")
@@ -148,14 +170,25 @@ def eng_determinism(pid, tier, wd, known, replay=None):
             finally:
                 shutil.rmtree(g2, ignore_errors=True)
         # ---- oracle: everything equal to the first repeat
-        ref = outs["repeat0"]
+        ref = dict(outs["repeat0"])
         for label, d in outs.items():
             for p, b in d.items():
-                if b != ref[p]:
+                if label.startswith("hdr-"):
+                    want = outs["hdr-together"].get(p)
+                elif p in ("t1", "t2"):
+                    want = outs["dotdotdot-all"].get(p)
+                else:
+                    want = ref[p]
+                if want is None or b != want:
                     viol.append(({"property": pid, "kind": "failing-input", "broken": "C16 oracle: output differs between runs/layouts",
                                   "input": {"variation": label, "package": p},
-                                  "impl": {"reference": ref[p].decode(errors="replace")[-1500:], "variant": b.decode(errors="replace")[-1500:]},
+                                  "impl": {"reference": (want or b"<not generated>").decode(errors="replace")[-1500:], "variant": b.decode(errors="replace")[-1500:]},
                                   "oracle": ["wire_gen.go of package %s under '%s' differs from the first plain run" % (p, label)], "seed": seed()}, True))
+        for label in ("hdr-alone-t1", "hdr-alone-t2"):
+            for p, b in outs[label].items():
+                if not b.startswith(b"// Copyright header.") or (b"package " + p.encode()) not in b:
+                    viol.append(({"property": pid, "kind": "failing-input", "broken": "C16 oracle: header file", "input": {"variation": label, "package": p},
+                                  "impl": b.decode(errors="replace")[-800:], "oracle": ["the output does not start with the header or is not this package's file"], "seed": seed()}, True))
         got = [v for v in nested.values() if v is not None]
         if got and any(v != got[0] for v in got):
             viol.append(({"property": pid, "kind": "failing-input", "broken": "C16 oracle: vendored layouts", "input": {"layouts": list(nested)},
